@@ -118,6 +118,11 @@ Definition rewrite_ok (Hf : Z -> Z -> Z) (strict : bool) (nf : Z -> Z) (pc pd : 
   forallb (fun p => (verified Hf nf (fst p) (snd p) || negb strict) && pmem p pc) (o_cache ob) &&
   forallb (fun p => (verified Hf nf (fst p) (snd p) || negb strict) && pmem p pd) (o_db ob).
 
+(* the monitor's view of "the call opened a database read transaction":
+   accepted filter type and no entry for the block in the cache *)
+Definition window_seen (pc : list (Z * Z)) (c : call) : bool :=
+  c_ftype_ok c && negb (existsb (fun p => fst p =? c_blk c) pc).
+
 Fixpoint xfirst_bad (Hf : Z -> Z -> Z) (strict : bool) (fh : Z -> Z) (best : Z) (i : Z)
     (pc pd sv : list (Z * Z)) (tr : list (xop * obs)) : option Z :=
   match tr with
@@ -129,5 +134,19 @@ Fixpoint xfirst_bad (Hf : Z -> Z -> Z) (strict : bool) (fh : Z -> Z) (best : Z) 
   | (XRewrite nb nf, ob) :: rest =>
     if rewrite_ok Hf strict nf pc pd ob
     then xfirst_bad Hf strict nf nb (i + 1) (o_cache ob) (o_db ob) sv rest
+    else Some i
+  | (XGetBlock _, ob) :: rest =>
+    (* GetBlock is no producer of filters: cache and database hold nothing
+       they did not hold before (and, strict, only verified entries) *)
+    if rewrite_ok Hf strict fh pc pd ob
+    then xfirst_bad Hf strict fh best (i + 1) (o_cache ob) (o_db ob) sv rest
+    else Some i
+  | (XCallW c w, ob) :: rest =>
+    (* the call is judged exactly like an undisturbed call against the
+       database contents pd of the moment its read transaction ran; what the
+       overlapping writers stored is in the database afterwards *)
+    if step_ok Hf fh best strict pc pd sv (Call c) ob
+    then xfirst_bad Hf strict fh best (i + 1) (o_cache ob)
+           (if window_seen pc c then db_put_all pd w else pd) (next_sv sv (Call c)) rest
     else Some i
   end.
